@@ -40,4 +40,7 @@ def run(tier: str, seed: int):
         e3c = (list(F.fam_e3(list(F.fam_shapes(1, 3)) + list(F.fam_faults(2, 3, max_faults=2, cofs=(True,))), workers=(1, 2, None))) + list(F.fam_e3(F.fam_faults(4, 4, cofs=(True,), reqs='sinks'), workers=(2,), liveness=False))
                + list(F.fam_e3(F.fam_variants(3), workers=(2,), liveness=False))
                + list(F.fam_e3(list(F.fam_types3(('TA', 'TN', 'TM'))) + list(F.fam_faults(2, 3, max_faults=2, cofs=(True,), kinds=('raise',), pre=True, bust=(True,))), workers=(1, 2))))
+    if tier != 'quick':
+        x_cf, x_se, x_e3 = F.thorough_extras('C02')
+        cfgs, serial, e3c = list(cfgs) + x_cf, list(serial) + x_se, list(e3c) + x_e3
     return run_e2_property('C02', tier, seed, cfgs, serial_configs=serial, e3_configs=e3c, real_cases=list(F.fam_real(F.real_bases('plain') + F.real_bases('faults'), workers=(2,))), rule=rule, assumptions=ASSUME)
